@@ -105,7 +105,7 @@ def run(chk, binary):
             if r < 0.45:
                 items.append(("cut", False, rng.choice(L.CUTS + ["zz", "fq"])))   # some fail
             elif r < 0.6:
-                items.append(("ncut", False, rng.choice(["a", "b", "key", "2", "x y"]), rng.choice(L.CUTS)))
+                items.append(("ncut", False, rng.choice(["a", "b", "key", "2", "x y", "k=v", "a=1", "a=2", "="]), rng.choice(L.CUTS)))     # a name is everything behind the first '=
             elif r < 0.85:
                 items.append(("move", False, rng.choice(L.MOVES + L.EDITS)))
             else:
@@ -192,6 +192,11 @@ def run(chk, binary):
         cut1, cut2 = rng.choice(["e", "w", "$", "iw"]), rng.choice(["e", "$", "w"])
         rep = ["-r", "1", "1"] if rng.random() < 0.3 else []
         argv = ["--json", "-g", pat, "-c", "name=hit", cut1] + rep + ["--else", "-c", "name=miss", cut2] + rep + ["--end"]
+        noelse = rng.random() < 0.35
+        if noelse:
+            # no --else branch: when no line matches nothing is cut - and a scope that asks for fields never falls back to
+            # printing the buffer, wherever in it (inside a repeat too) the cuts stand
+            argv = ["--json", "-g", pat, "-c", "name=hit", cut1, "-m", "w"] + (["-r", "2", "1"] if rep else []) + ["--end"]
         cjobs.append({"args": argv, "stdin": text})
         cmeta.append((argv, text, pat, bool(rep)))
     for (argv, text, pat, rep), (rc, out, err) in zip(cmeta, cli_map(binary, cjobs)):
@@ -199,7 +204,7 @@ def run(chk, binary):
         if rc != 0:
             continue
         try:
-            recs = json.loads(out.decode("utf-8"))
+            recs = json.loads(out.decode("utf-8")) if out.strip() else []      # (no record at all: vicut prints nothing but the closing newline)
         except Exception as e:
             chk.violation("spec:--json output is not one JSON document", {"argv": argv, "stdin": text, "stdout": out.decode(errors="replace")[:400], "error": str(e)})
             continue
@@ -208,6 +213,10 @@ def run(chk, binary):
             lines.pop()
         hit = any(_re.search(pat, l) for l in lines)
         want = "hit" if hit else "miss"
+        if "--else" not in argv and not hit:
+            if recs:
+                chk.violation("spec:a scope that cuts fields matched no line, yet records were printed", {"argv": argv, "stdin": text, "stdout": out.decode(errors="replace")[:300]})
+            continue
         keys = {k for r in recs if isinstance(r, dict) for k in r}
         if keys and keys != {want}:
             chk.violation("spec:a named field does not carry its name", {"argv": argv, "stdin": text, "expected_key": want, "keys": sorted(keys), "stdout": out.decode(errors="replace")[:300]})
